@@ -36,7 +36,10 @@ func projSource(r *rand.Rand) string {
 		}
 		return sb.String()
 	}
-	switch r.Intn(12) {
+	switch r.Intn(13) {
+	case 12:
+		// an expression whose text looks like an id action
+		return core.Pick(r, "uid:0\ngid:0\neuid:0\n", "\\bid:9\\d+\n", "x,id:123,\n")
 	case 0:
 		return list(2 + r.Intn(4))
 	case 1:
@@ -113,6 +116,14 @@ func projGen1(r *rand.Rand) *project {
 				}
 			}
 			rc.Rules = append(rc.Rules, rs)
+		}
+		if core.Chance(r, 1, 6) && len(rc.Rules) > 0 {
+			// the file ends with a two-line rule, without marker and (mostly) without a final newline
+			if last := &rc.Rules[len(rc.Rules)-1]; len(last.Chain) == 1 {
+				last.Compact = true
+			}
+			rc.NoMarker = true
+			rc.NoFinal = core.Chance(r, 2, 3)
 		}
 		p.Files = append(p.Files, rc)
 	}
